@@ -294,6 +294,10 @@ var c16Classes = []c16Class{
 		if i%3 == 0 {
 			return pipe(cn, []string{"SELECT", db}, []string{"MULTI"}, []string{"FLUSHALL"}, []string{"SET", "k0", "f"}, []string{"EXEC"}, []string{"SELECT", "0"})
 		}
+		if i%3 == 1 {
+			// a key watched in the database that a queued SELECT moves to, with the introspection commands that look at the watches
+			return pipe(cn, []string{"SELECT", db}, []string{"WATCH", "k0", "l0"}, []string{"SELECT", "0"}, []string{"MULTI"}, []string{"SELECT", db}, []string{"CLIENT", "INFO"}, []string{"CLIENT", "LIST"}, []string{"GET", "k0"}, []string{"SELECT", "0"}, []string{"EXEC"})
+		}
 		return pipe(cn, []string{"MULTI"}, []string{"SELECT", db}, []string{"SET", "k0", "x"}, []string{"RANDOMKEY"}, []string{"RPUSH", "l0", "x"}, []string{"SELECT", "0"}, []string{"GET", "k0"}, []string{"EXEC"})
 	}},
 	{"watch-other-db", func(cn *wire.Conn, rng *rand.Rand, i int, _ *c16Env) error {
